@@ -50,6 +50,8 @@ pub struct OptSpec {
     pub idl_text: String,
     pub tosource: bool,
     pub preamble: Option<String>,
+    /// bool_type, int_type, float_type, string_type
+    pub types: [Option<&'static str>; 4],
 }
 pub struct DeriveSpec {
     pub stem: String, // d<hash>
@@ -103,7 +105,8 @@ pub fn write_package(bins: &[BinSpec], derives: &[DeriveSpec], opts: &[OptSpec])
         &root.join("src/bin/fe_build.rs"),
         "// written by vharness (suite gen)\nfn main() {\n    let a: Vec<String> = std::env::args().collect();\n    std::env::set_var(\"OUT_DIR\", &a[2]);\n    \
          match a[1].as_str() {\n        \"many\" => varlink_generator::cargo_build_many(&a[3..]),\n        \"one\" => varlink_generator::cargo_build(&a[3]),\n        \
-         \"tosource\" => varlink_generator::cargo_build_tosource(&a[3], false),\n        _ => std::process::exit(3),\n    }\n}\n",
+         \"tosource\" => varlink_generator::cargo_build_tosource(&a[3], false),\n        \
+         \"tosource2\" => {\n            varlink_generator::cargo_build_tosource(&a[3], true);\n            varlink_generator::cargo_build_tosource(&a[4], true);\n        }\n        _ => std::process::exit(3),\n    }\n}\n",
     );
     // build.rs: the real build helper on every definition the generator handles.  `cargo_build_many` ends the process
     // on failure, so it runs in a child (this same build script re-executed): a failure of the helper on these inputs
@@ -131,24 +134,26 @@ pub fn write_package(bins: &[BinSpec], derives: &[DeriveSpec], opts: &[OptSpec])
     );
     for o in opts {
         b.push_str(&format!(
-            "    opt(&dir, {:?}, {}, {});\n",
+            "    opt(&dir, {:?}, {}, {}, {:?});\n",
             o.stem,
             o.tosource,
             match &o.preamble {
                 None => "None".to_string(),
                 Some(p) => format!("Some({:?})", p),
-            }
+            },
+            o.types
         ));
     }
     b.push_str(
         "    println!(\"cargo:rerun-if-changed=build.rs\");\n}\n\n\
          // one cell of the option matrix: generate_with_options with a preamble, output and status into src/opt/\n\
-         fn opt(dir: &str, stem: &str, tosource: bool, preamble: Option<&str>) {\n    \
+         fn opt(dir: &str, stem: &str, tosource: bool, preamble: Option<&str>, types: [Option<&'static str>; 4]) {\n    \
          let text = std::fs::read(format!(\"{}/idl/{}.varlink\", dir, stem)).unwrap();\n    \
          let r = std::panic::catch_unwind(|| {\n        \
          let mut w: Vec<u8> = Vec::new();\n        \
          let options = varlink_generator::GeneratorOptions {\n            \
          preamble: preamble.map(|p| p.parse::<proc_macro2::TokenStream>().unwrap()),\n            \
+         bool_type: types[0], int_type: types[1], float_type: types[2], string_type: types[3],\n            \
          ..Default::default()\n        };\n        \
          let mut rd: &[u8] = &text;\n        \
          varlink_generator::generate_with_options(&mut rd, &mut w, &options, tosource).map(|_| w)\n    });\n    \
